@@ -63,6 +63,16 @@ Definition validate_private_headers (private : option (list string)) (h : hdict)
       end
   end.
 
+(* the key that is prepared.  The caller's key argument is a value, or a callable, written [PList [r]] with r what the
+   callable returns for this header and payload: a callable's result is used whatever it is (None included); only when the
+   caller passes no key at all is the header's own "jwk" member used *)
+Definition effective_key (h : hdict) (rawkey : pv) : pv :=
+  match rawkey with
+  | PList [r] => r
+  | PNone => match dict_get "jwk" h with Some j => j | None => PNone end
+  | _ => rawkey
+  end.
+
 (* _prepare_algorithm_key: the algorithm named by the (merged) header, allow-list, registry, key *)
 Definition prepare (allow : option (list string)) (h : hdict) (rawkey : pv) : jres (string * pv) :=
   match dict_get "alg" h with
@@ -73,10 +83,7 @@ Definition prepare (allow : option (list string)) (h : hdict) (rawkey : pv) : jr
           if (match allow with Some l => negb (list_in_str alg l) | None => false end) then JErr JUnsupportedAlg
           else if negb (registered alg) then JErr JUnsupportedAlg
           else
-            let raw := match rawkey with
-                       | PNone => match dict_get "jwk" h with Some j => j | None => PNone end
-                       | _ => rawkey end in
-            match prepare_key alg raw with
+            match prepare_key alg (effective_key h rawkey) with
             | Some k => JOk (alg, k)
             | None => JErr (JKeyError "prepare_key")
             end
